@@ -13,12 +13,17 @@ META = {
             "a brute-force reference: file only on a complete match without trailing slash, directory with the "
             "remainder, method check, index/default/miss; registration order irrelevant), service_set.go (user tier "
             "only with c.User != \"\", admin tier only if isAdmin, ServeInternal's three tiers only if admin) and "
-            "host_mux.go (exact host only); the tier/auth skeletons and the router's conditions are re-read from "
+            "host_mux.go (exact host only), the HTTP entry (the routed string is exactly URL.Path, segments canonical, "
+            "slashes/escapes; ErrCode table; ServeInternal with identity-preserving handlers gates ALL tiers; nil "
+            "handlers refused; scope register-then-serve backed by repository scans and a -race stream); the tier/auth "
+            "skeletons, the router's conditions, NewContext's sources and the ErrCode switch are re-read from "
             "/repo by a go/ast translator on every run, and all models are tied to the code by differential runs "
             "through the public API with tagging handlers, evaluated inside Coq.",
     "note": "Trusted: Coq kernel + vm_compute; translator gen/aries.go; harness/cmd/c20 + checks/c20.py; "
-            "aries/verif_export.go (read-only trie dump). Go maps, net/http request construction and errcode are "
-            "modelled, not verified; IsAdmin callbacks are modelled as pure; no axioms.",
+            "aries/verif_export.go (read-only trie dump). Go maps and errcode are modelled, not verified; net/http's "
+            "request parsing (ReadRequest, url.ParseRequestURI, unescape, Host/OPTIONS * handling) is a named trusted "
+            "model (Entry.v http_parse) checked against a real http.Server on raw request lines; IsAdmin callbacks are "
+            "modelled as pure; concurrent registration is out of scope (unsupported by the code); no axioms.",
     "technique": "Coq proof (nested induction over trie nodes, simulation against scan references) + go/ast "
                  "translation of statement skeletons + vm_compute correspondence + brute-force implementation oracle",
 }
@@ -694,6 +699,32 @@ def run(ck):
             if line.startswith("{"):
                 cases.append(json.loads(line))
 
+    # scope "register everything, then serve": concurrent SERVING on a finished structure must be
+    # read-only; run a slice of the cases from 8 goroutines under the race detector
+    conc_n = 25 if not ck.thorough else 400
+    racebin = ck.build_harness("c20", race=True)
+    if racebin:
+        rc, out, err = vlib.sh2([racebin, "-seed", str(ck.seed), "-tier", "quick", "-conc", str(conc_n)], timeout=1500)
+        nconc = 0
+        for line in out.splitlines():
+            if not line.startswith("{"):
+                continue
+            r = json.loads(line)
+            nconc += 1
+            ck.count("conc", key=("conc", r["i"]))
+            if not r.get("same"):
+                ck.violation("impl:conc:different-answer",
+                             "a request was answered differently while other requests were being served",
+                             {"case_index": r["i"], "kind": r["kind"], "stream": r.get("from")})
+        if "DATA RACE" in err or "concurrent map" in err or rc == 66:
+            m = err[err.find("WARNING: DATA RACE"):][:1800]
+            ck.violation("impl:conc:data-race",
+                         "serving requests concurrently on a finished Mux/Router/HostMux/Trie is a data race",
+                         {"race_report": m, "cmd": "c20-race -seed %d -conc %d" % (ck.seed, conc_n)})
+        elif rc != 0:
+            ck.broken.append({"what": "race harness run failed", "detail": err[-1500:]})
+        ck.coverage["concurrent_serving_cases"] = nconc
+
     # implementation-only oracle: the property read off the observed dispatch
     bad = set()
     shrunk_keys = set()
@@ -792,6 +823,11 @@ def run(ck):
              "bytes, duplicates, empty strings); segment-trie route sets over {a,b}^(0..3) x all queries of depth "
              "<=4 plus malformed segments; random router sets (file/dir/method/index/default, nested routers) x "
              "paths with trailing/repeated slashes; all (identity, IsAdmin, auth, tier nil/miss/hit, path, entry) "
-             "combinations; host sets. distinct = distinct case inputs; trivial = no registration at all",
-        assumptions=["IsAdmin callbacks and handlers are functions of (User, UserLevel, Path)",
+             "combinations; host sets; raw request lines (escapes, slashes, *, CONNECT, absolute-form, Host variants, "
+             "HTTP/1.0) over TCP to a real http.Server in front of HostMux+Routers with failing leaves; nil handlers and "
+             "JSONCall/Call wrappers; 200 finished structures served from 8 goroutines under -race. "
+             "distinct = distinct case inputs; trivial = no registration at all",
+        assumptions=["registration is finished before serving starts (the code has no lock; checked: no serving method "
+                     "writes, no registration from a handler or goroutine anywhere in the repository)",
+                     "IsAdmin callbacks and handlers are functions of (User, UserLevel, Path)",
                      "Go map lookup/store semantics", "a tier handler returning exactly aries.Miss means miss"])
